@@ -573,7 +573,7 @@ class Ctx:
                 print("KNOWN-FINDING: property=%s %s" % (self.pid, k.get("what", what)), flush=True)
                 return False
         os.makedirs(os.path.join(EVIDENCE_DIR, "replays"), exist_ok=True)
-        path = os.path.join(VERIF, "evidence", "replays", "%s-%s.json" % (self.pid, dg[:12]))
+        path = os.path.join(EVIDENCE_DIR, "replays", "%s-%s.json" % (self.pid, dg[:12]))
         with open(path, "w") as f:
             json.dump({"property": self.pid, "seed": self.seed, "tier": self.tier,
                        "digest": dg, "digest_key": digest_key, "what": what,
